@@ -1402,8 +1402,20 @@ class RestAPI(object):
                     return aws_error("MissingRequiredParameter"), 400
 
 
-                error = params.get("error")
-                cause = params.get("cause")
+                """
+                The error and cause parameters are optional. The Task is failed
+                by the errorType of the message sent below, so a missing error
+                defaults to States.TaskFailed (a null errorType would be taken
+                for a successful result).
+                """
+                error = params.get("error") or "States.TaskFailed"
+                cause = params.get("cause") or ""
+                if not (isinstance(error, str) and isinstance(cause, str)):
+                    self.logger.error(
+                        "RestAPI SendTaskFailure: ValidationError: error and "
+                        "cause must be strings."
+                    )
+                    return aws_error("ValidationError"), 400
 
                 """
                 First check if the error or cause exceed length limits.
